@@ -9,7 +9,7 @@ LEAN_TARGETS = ["TornadoModel.C43.Props"]
 _T = "TornadoModel.C43."
 THEOREMS = [_T + n for n in [
     "requestLine_iff", "requestLine_error_kind", "statusLine_iff", "statusLine_error_kind",
-    "parseHeader_total_partial", "parseHeader_total_refuted",
+    "parseHeader_total", "parseHeader_plain_returns",
     "splitHostPort_total", "splitHostPortOld_raises_iff",
     "re_unescape_escape",
     "valid_ip_spec", "valid_ip_rejects", "valid_ip_noname", "valid_ip_ascii",
@@ -29,8 +29,8 @@ TRUSTED = [
 ASSUMPTIONS = [
     "sys.get_int_max_str_digits() has its default value 4300 (checked at run time; the model constant is intMaxDigits)",
     "_parse_header: parameter *names* contain no non-ASCII cased letters (str.lower is modelled for ASCII); RFC 2231 "
-    "charsets other than utf-8/us-ascii/latin-1 (arbitrary Python codecs) are outside the model (`Unmodelled`, still "
-    "subject to the never-raises oracle)",
+    "charsets other than utf-8/us-ascii/latin-1 (arbitrary Python codecs; a NUL in the name is modelled) are outside the "
+    "model (`Unmodelled`, still subject to the never-raises oracle)",
     "url_concat: the part of the URL before '?'/'#' is taken from a generator of bases that urlunparse(urlparse(.)) leaves "
     "unchanged, and URLs contain no whitespace/control characters (urlsplit strips them); no lone surrogates",
     "format_timestamp: instants 0 <= ts < 253402300800 (years 1970-9999) given as int, float with an exact binary "
@@ -48,8 +48,9 @@ EXHAUSTIVE = {"quick": False, "thorough": False}
 CLAUSES = {
     "request/response start-line parsers accept exactly the RFC 9112 grammar, HTTPInputError otherwise":
         "requestLine_iff, requestLine_error_kind, statusLine_iff, statusLine_error_kind",
-    "header-parameter parser never raises": "parseHeader_total_partial (no RFC 2231 parameter), parseHeader_total_refuted "
-        "(known finding: malformed RFC 2231 continuations/charsets raise TypeError/ValueError/UnicodeError)",
+    "header-parameter parser never raises": "parseHeader_total (every line, after fix 1947ea7: decode_params / charset exceptions on "
+        "malformed RFC 2231 parameters are caught and the undecoded parameter is kept), parseHeader_plain_returns (no RFC 2231 "
+        "parameter: a result, never `Unmodelled`); charsets naming codecs outside the model: tie only (oracle on every `header` case)",
     "cookie parser never raises": "tie only: the model parseCookie is a total function without an error outcome; the oracle checks the implementation",
     "host/port splitter never raises": "splitHostPort_total, splitHostPortOld_raises_iff (after fix 7eb1536)",
     "token-valued header parameters round-trip through encoding": "param_roundtrip (token key, sorted lower-case token names "
@@ -855,6 +856,8 @@ def stats(case, impl):
             out.append("header:unmodelled-charset")
         if "*" in case["s"]:
             out.append("header:has-star")
+        if any(_CONT.match(k) for k, _ in r[1]):
+            out.append("header:decode_params-raised-literal-fallback")     # only the `except (TypeError, ValueError)` path keeps such names
     elif fn == "hostport":
         out.append("hostport:" + ("port" if r[1] is not None else "noport"))
     elif fn == "ip":
